@@ -21,7 +21,13 @@ def paths(stmts, _budget=None):
             for p in gen(rest):
                 yield prefix + p
         if isinstance(s, ast.Return):
-            yield [('return', s)]
+            if isinstance(s.value, ast.IfExp):
+                # `return a if c else b` == if c: return a / else: return b
+                for val, sub in ((True, s.value.body), (False, s.value.orelse)):
+                    r = ast.copy_location(ast.Return(value=sub), s)
+                    for p in gen([r]): yield [('guard', s.value.test, val)] + p
+            else:
+                yield [('return', s)]
         elif isinstance(s, ast.Raise):
             yield [('raise', s)]
         elif isinstance(s, ast.If):
